@@ -705,6 +705,10 @@ func (s *Sim) judgeGate(o *kit.Outcome, m *opMeta, now time.Time) {
 		}
 	} else if definitelyNotActive(worst) {
 		s.inc("C21", "gate_rejected_inactive")
+		switch m.gate {
+		case "RecvPacket", "Acknowledgement", "Timeout", "ChanOpenTry":
+			s.inc("C21", "gate_proof_consumers_rejected_inactive")
+		}
 	}
 }
 
